@@ -95,6 +95,8 @@ type proofPart struct {
 	Trusted     []string            `json:"trusted_base"`
 	Notes       []string            `json:"notes"`
 	Samples     []sampleObl         `json:"samples"`
+	PathCovers  int                 `json:"return_path_covers"`
+	DeadReturns []string            `json:"return_paths_unreachable_under_contract"`
 	Violations  int                 `json:"violations"`
 }
 
@@ -186,6 +188,20 @@ func runProof(eng *Engine, prop string, tier string, kfs []KnownFinding, replayD
 	dir, _ := os.MkdirTemp("", "vcgo-"+prop)
 	defer os.RemoveAll(dir)
 	solveAll(all, dir, quickSec, raceSec, 8)
+	// informational reachability covers of every return path (thorough tier)
+	if tier == "thorough" {
+		var covers []*Obligation
+		for _, r := range results {
+			covers = append(covers, r.PathCovers...)
+		}
+		solveAll(covers, dir, quickSec, raceSec, 8)
+		for _, o := range covers {
+			pp.PathCovers++
+			if o.Status != "discharged" {
+				pp.DeadReturns = append(pp.DeadReturns, o.Name)
+			}
+		}
+	}
 	for _, o := range all {
 		pp.ByKind[o.Kind]++
 		pp.SolverMs += o.Millis
@@ -390,6 +406,8 @@ func cmdCheck(args []string) {
 		"notes":                    pp.Notes,
 		"samples":                  pp.Samples,
 		"contract_files":           eng.specFiles,
+		"return_path_covers":                      pp.PathCovers,
+		"return_paths_unreachable_under_contract": pp.DeadReturns,
 	}
 	if *extraJSON != "" {
 		if b, err := os.ReadFile(*extraJSON); err == nil {
